@@ -329,6 +329,10 @@ def gen_case(rng, sites=None, exc_i=None, garbage=None):
         # a store fault is only telling when several approved deltas reach the store: the T4 filters stay wide open
         cfg["t4"].update({"churn_cap_edges": 64, "delta_norm_cap_l2": 100.0, "novelty_cap_per_node": 1.0})
         cfg["t4"].pop("cooldowns", None)
+        if rng.random() < 0.7:
+            # the commit's cache invalidation has something to do (and to report in the apply record)
+            cfg["t4"]["cache_bust_mode"] = "on-apply"
+            cfg["t4"]["cache"] = {"enabled": True, "namespaces": ["t2:semantic"]}
     turns = gen_turns(rng, world, n=(3, 4) if any(x.startswith(("boot", "reflect-")) for x in sites) else (2, 3), agents=("A",), plans=False)
     for t in turns:
         t["plan"] = {"ops": [{"kind": "Speak"}, {"kind": "EditGraph"}], "deltas": [["node", f"n:{x}", "weight", rng.choice([0.1, -0.2, 0.3]), 1]
